@@ -181,7 +181,7 @@ def pipeline_candidates(scn):
 
 
 def _wkey(w):
-    return None if not w else (w.get("starting"), w.get("ending"))
+    return None if not w else (w.get("starting"), w.get("starting_ns", 0), w.get("ending"), w.get("ending_ns", 0))
 
 
 def _rows(s, keep):
@@ -193,6 +193,12 @@ def _rows(s, keep):
     for ax in ("z", "lat", "lon"):
         if t.get(ax) is not None:
             t[ax] = [t[ax][i] for i in keep]
+    for k in ("frac_ms", "frac_ns"):
+        if t.get(k):
+            t[k] = [t[k][i] for i in keep]
+    if t.get("nat"):
+        pos = {old: new for new, old in enumerate(keep)}
+        t["nat"] = [pos[i] for i in t["nat"] if i in pos]
     if t.get("index", {}).get("kind") == "perm":
         old = [t["index"]["perm"][i] for i in keep]
         order = sorted(old)
